@@ -5,11 +5,14 @@ REQUIRED = ["CifModel.C14_all_continue", "CifModel.C14_refines_spec", "CifModel.
             "CifModel.C14_skip_siblings", "CifModel.C14_end", "CifModel.C14_error_propagates",
             "CifModel.C14_returns_ok_on_directives", "CifModel.C14_empty_loop", "CifModel.C14_cex_finished_pinned",
             "CifModel.C14_visits_sublist", "CifModel.C14_skip_current_tree", "CifModel.C14_skip_siblings_tree",
-            "CifModel.C14_parent_end_after_skip_siblings", "CifModel.C14_returns_ok_or_empty_loop"]
+            "CifModel.C14_parent_end_after_skip_siblings", "CifModel.C14_returns_ok_or_empty_loop",
+            "CifModel.C14_handles_refine", "CifModel.C14_handles_are_elements", "CifModel.C14_handle_queries"]
 GEN = ["ErrCodes"]
 FAMILIES = ["walk"]
 TRUSTED_BASE = [
     "Lean 4.33.0 kernel; axioms propext, Classical.choice, Quot.sound only",
+    "lean/CifModel/Model/WalkH.lean (the same functions passing handles; proved to refine Walk.lean; the driver answers the "
+    "executor's in-callback queries through these handles and cross-checks the two models on every case)",
     "lean/CifModel/Model/Walk.lean is a faithful transcription of cif_walk / walk_container / walk_loops / walk_loop / "
     "walk_packet / walk_item of src/cif.c (checked on every run by the `walk` correspondence family: exhaustive "
     "one-deviation handler programs per CIF, pairs and random programs, under ASan+UBSan)",
@@ -41,22 +44,28 @@ PARTIAL = [
     "C14_all_continue and C14_returns_ok_on_directives are restricted to CIFs without packet-less loops (entering such a "
     "loop ends the walk with CIF_EMPTY_LOOP: C14_empty_loop, C14_returns_ok_or_empty_loop); every other theorem holds for "
     "every CIF",
-    "'handles passed to callbacks are valid for queries' is not a theorem: it is observed by the correspondence run, under "
-    "ASan, and judged by the oracle and the model alike: inside every block / frame start and end callback the container "
-    "handle is asked cif_container_assert_block (CIF_OK for a data block, CIF_ARGUMENT_ERROR for a save frame — the model "
-    "knows the kind of every handle), cif_container_get_code, the numbers of frames and loops it lists "
-    "(cif_container_get_all_frames / _loops), cif_container_get_frame of its first listed frame through the handle (the "
-    "look-up uses the handle's own id; the code of the returned handle is compared) and cif_container_get_item_loop of the "
-    "first name of its first listed loop (category of the returned loop); loop handles: category and names; packet handles: "
-    "names and values; items: name and value.  The answers are part of the observation (`q:` token) and are checked against "
-    "the CIF that was built.  Not queried: packet iteration through a loop handle inside loop callbacks (would interfere "
-    "with the walker's own iterator); there is no API to ask a loop handle for its container",
+    "'handles passed to callbacks are valid for queries': the LOGIC of it is now a theorem about the walker model with handles "
+    "(Model/WalkH.lean: a container handle = the path of positions from the list of data blocks, which fixes id, parent and kind; a "
+    "loop handle = container path + position; packets / items = positions of the iteration): C14_handles_refine (forgetting the "
+    "handles gives Walk.walk, every CIF, every program), C14_handles_are_elements (every callback is handed the handle of the "
+    "element it announces and that handle denotes this element — right kind, code, category, names, items — in the CIF walked), "
+    "C14_handle_queries (cif_container_assert_block / get_code / numbers of frames and loops / get_frame / get_item_loop through a "
+    "container handle and get_category / get_names through a loop handle answer as for the element announced).  The hypothesis "
+    "'handlers do not modify the CIF' is built in: the handle is looked up in the CIF that is walked.  What stays observed only "
+    "(ASan, exact leak accounting): that the C objects behind the handles are ALIVE during the callback and released afterwards "
+    "(memory validity is not a statement about the model); the executor makes the queries inside every callback and the driver "
+    "answers them through the model's handles (lookup by path), so a handle of the wrong element / kind / parent shows up as a "
+    "disagreement.  Loop handles are queried too (request flag lq): in loop_start / loop_end the handler opens its own packet "
+    "iterator through the handle, counts the packets and closes it (the walker's own iterator is not open then); in packet_start / "
+    "item / packet_end the loop handle saved at loop_start is asked for category and names while the walker's iterator IS open "
+    "(read-only queries must not disturb the walk); model (qLoopPackets / qLoopCategory / qLoopNames through the handle) and "
+    "oracle predict all answers.  There is no API to ask a loop handle for its container",
 ]
 LEVEL_TEXT = ("Proof about the executable model Walk.walk, for all CIFs (any shape/order) and all handler programs "
               "(arbitrary functions of invocation index and event): refinement of a declarative pruning semantics over the "
               "event tree, all-continue = depth-first flattening with CIF_OK, local SKIP_CURRENT / SKIP_SIBLINGS laws for "
-              "every element kind, delivered callbacks = a sublist of the full traversal, END / error code = last callback and result (every CIF), directives never yield an error. The model "
+              "every element kind, delivered callbacks = a sublist of the full traversal, every callback gets the handle of the element it announces and queries through it answer accordingly (walker model with handles, refining Walk.walk), END / error code = last callback and result (every CIF), directives never yield an error. The model "
               "is tied to src/cif.c by differential execution with an independent implementation-level oracle.")
 LEVEL_NOTE = ("All theorems hold for every handler program (F32 fixed by d1128e2; C14_cex_finished_pinned documents the old "
-              "behaviour); handle validity only observed under ASan. Trusted: Lean kernel, model transcription (checked by correspondence), Spec/Traversal.lean, harness.")
+              "behaviour); handles passed to callbacks: identity / kind / query answers proved for the model with handles (C14_handles_*), liveness of the C objects observed under ASan. Trusted: Lean kernel, model transcription (checked by correspondence), Spec/Traversal.lean, harness.")
 TECHNIQUE = "Lean 4 proof (structural induction over the nested container type, refinement to a tree semantics) + differential correspondence"
